@@ -39,12 +39,13 @@ from __future__ import annotations
 
 import ast
 
-from core.loader import AnalysisError, ClassInfo, FuncInfo, Repo
+from core.loader import AnalysisError, ClassInfo, FuncInfo, Repo, own_nodes
 from core.report import Result
 
 from .c07_model import semantic_compare
 from .c07_norm import Norm, canon, canon_gen, cases, diff_bags, rename_try, try_names
 from .c07_sym import Evaluator, Obj
+from .common import reachable_funcs
 
 DRULE = "pytestarch.diagram_extension.diagram_rule"
 DCONV = "pytestarch.diagram_extension.dependency_to_rule_converter"
@@ -469,6 +470,131 @@ def check_pipeline(repo: Repo, res: Result, A: Anchors) -> None:
                     res.undecide(u["rule"], u["construct"], u["detail"], u["where"])
 
 
+# --------------------------------------------------------------------------- the message convention between rules and the aggregator
+
+
+def caught_uses(t, out=None) -> set[str]:
+    """How a trace reads the exceptions it caught: 'str' (str(e), f"{e}"), 'args[k]', 'args' (the whole tuple), 'other'."""
+    out = out if out is not None else set()
+    if not isinstance(t, tuple) or not t:
+        return out
+    if t[0] == "str" and isinstance(t[1], tuple) and t[1][:1] == ("caught",):
+        out.add("str")
+        return out
+    if t[0] == "index" and isinstance(t[1], tuple) and t[1][:1] == ("attr",) and t[1][2] == "args" and t[1][1][:1] == ("caught",):
+        out.add(f"args[{t[2][1]}]" if t[2][0] == "const" else "args[?]")
+        return out
+    if t[0] == "attr" and isinstance(t[1], tuple) and t[1][:1] == ("caught",):
+        out.add("args" if t[2] == "args" else "other")
+        return out
+    if t[0] == "fstr":
+        for p in t[1]:
+            if isinstance(p, tuple) and p[:1] == ("caught",):
+                out.add("str")
+            else:
+                caught_uses(p, out)
+        return out
+    for x in t:
+        if isinstance(x, tuple):
+            caught_uses(x, out)
+    return out
+
+
+def resolve_class(repo: Repo, mod, e: ast.expr):
+    """('builtin', name) | ClassInfo | None for the expression naming the class of a raised exception."""
+    if isinstance(e, ast.Name):
+        if mod is not None and e.id in mod.classes:
+            return mod.classes[e.id]
+        if mod is not None and e.id in mod.imports:
+            fq = repo._canonical(mod.imports[e.id])
+            return repo.classes.get(fq) or (("builtin", fq.split(".")[-1]) if fq.startswith("builtins.") else None)
+        return ("builtin", e.id)
+    if isinstance(e, ast.Attribute) and isinstance(e.value, ast.Name) and mod is not None and e.value.id in mod.imports:
+        fq = repo._canonical(mod.imports[e.value.id]) + "." + e.attr
+        return repo.classes.get(fq) or (("builtin", e.attr) if fq.startswith("builtins.") else None)
+    return None
+
+
+def is_assertion_class(repo: Repo, c) -> bool:
+    if isinstance(c, tuple):
+        return c[1] == "AssertionError"
+    return c is not None and any(b.split(".")[-1] == "AssertionError" for b in repo.external_bases(c))
+
+
+def single_argument(call: ast.Call) -> str | None:
+    """None when the call passes exactly one plain positional argument, else what it passes instead."""
+    if call.keywords:
+        return "keyword arguments"
+    if any(isinstance(a, ast.Starred) for a in call.args):
+        return "an unpacked sequence (`" + ", ".join(ast.unparse(a) for a in call.args) + "`): one entry of `args` per element"
+    if len(call.args) != 1:
+        return f"{len(call.args)} arguments"
+    return None
+
+
+def check_message_convention(repo: Repo, res: Result, A: Anchors) -> None:
+    """The aggregate contains the *whole* message of every violated rule: when the applier collects `e.args[0]` (not `str(e)`),
+    every AssertionError raised on the verdict path of `Rule.assert_applies` must carry its complete message as its one and only
+    argument - also through the `__init__` of exception subclasses (`super().__init__(*lines)` spreads the message over `args`)."""
+    ev = new_eval(repo, A)
+    run_source(ev, A, "MRA(R).assert_applies(EV)")
+    if ev.skipped:
+        return  # check_applier reports that
+    uses = caught_uses(trace_of(ev))
+    key = f"{A.mra_apply.relpath}::{A.mra.name}.assert_applies"
+    where = where_of(A.mra_apply)
+    reads_args = sorted(u for u in uses if u.startswith("args["))
+    if not reads_args:
+        if uses:
+            res.add("C07.R2", f"{key}::what is collected from a violated rule", True, "the rendered exception (str / all of args): independent of how the rules construct their AssertionError", where, kind="flow")
+        return
+    if any(u != "args[0]" for u in reads_args):
+        res.add("C07.R2", f"{key}::what is collected from a violated rule", False, f"the applier collects {', '.join(reads_args)} of the caught AssertionError: not the message of the rule (args[0] / str(e)).", where, kind="flow")
+        return
+    rule_apply = method(repo, A.rule, "assert_applies")
+    found = 0
+    for f in reachable_funcs(repo, [rule_apply]):
+        for n in own_nodes(f.node):
+            if not isinstance(n, ast.Raise) or not isinstance(n.exc, ast.Call):
+                continue
+            c = resolve_class(repo, f.module, n.exc.func)
+            if not is_assertion_class(repo, c):
+                continue
+            found += 1
+            construct = f"{f.relpath}::{f.qualname}::{ast.unparse(n)[:90]}"
+            loc = f"{f.relpath}:{n.lineno}"
+            why = None
+            init = None if isinstance(c, tuple) else repo.lookup_method(c, "__init__")
+            if init is None:
+                why = single_argument(n.exc)
+                if why:
+                    why = f"`{ast.unparse(n.exc)[:120]}` is constructed with {why}"
+            else:
+                supers = [x for x in own_nodes(init.node) if isinstance(x, ast.Call) and isinstance(x.func, ast.Attribute) and x.func.attr == "__init__"
+                          and ((isinstance(x.func.value, ast.Call) and isinstance(x.func.value.func, ast.Name) and x.func.value.func.id == "super") or isinstance(x.func.value, ast.Name))]
+                sets_args = [x for x in own_nodes(init.node) if isinstance(x, ast.Attribute) and x.attr == "args" and isinstance(x.ctx, ast.Store)]
+                if sets_args or len(supers) > 1:
+                    res.undecide("C07.R2", construct, f"{c.name}.__init__ sets `args` in a way that is not followed", loc)
+                    continue
+                if not supers:
+                    why = single_argument(n.exc)  # BaseException.__new__ keeps the constructor arguments
+                    if why:
+                        why = f"`{ast.unparse(n.exc)[:120]}` is constructed with {why} ({c.name}.__init__ does not call super().__init__)"
+                else:
+                    call = supers[0]
+                    direct = isinstance(call.func.value, ast.Name)  # Base.__init__(self, ...)
+                    probe = ast.Call(func=call.func, args=call.args[1:] if direct else call.args, keywords=call.keywords)
+                    why = single_argument(probe)
+                    if why:
+                        why = f"{c.name}.__init__ ({init.relpath}:{call.lineno}) hands `{ast.unparse(call)[:120]}` to the base class: {why}"
+            if why:
+                res.add("C07.R2", construct, False, f"{where}: the aggregate keeps `e.args[0]` of every violated rule, but {why} - args[0] is not the complete message of the rule, every further line is dropped from the DiagramRule error.", loc, kind="flow")
+            else:
+                res.add("C07.R2", construct, True, "raised with its complete message as the only argument (what the applier collects as args[0])", loc, kind="flow")
+    if not found:
+        res.undecide("C07.R2", f"{key}::what is collected from a violated rule", f"the applier collects e.args[0], but no `raise <AssertionError>(...)` was found on the call paths of {rule_apply.fq}", where)
+
+
 def run(repo: Repo) -> Result:
     res = Result("C07")
     res.explanation = (
@@ -484,7 +610,7 @@ def run(repo: Repo) -> Result:
     res.not_decided = "equivalence with pairwise conformance on all graphs (relies on C01 for each generated rule); order of the generated rules and of the names inside one rule."
     res.trusted_base = ["C01 (meaning of the generated module rules)", "rules/c07_sym.py (symbolic evaluator)", "rules/c07_norm.py (normal form)", "rules/c07_model.py (finite-model comparison of normal forms that differ as text)"]
     A = Anchors(repo)
-    for rule, check, f in (("C07.R1", check_convert, A.convert), ("C07.R2", check_applier, A.mra_apply), ("C07.R3", check_prefix, A.prefix), ("C07.R3", check_pipeline, A.dr_apply)):
+    for rule, check, f in (("C07.R1", check_convert, A.convert), ("C07.R2", check_applier, A.mra_apply), ("C07.R2", check_message_convention, A.mra_apply), ("C07.R3", check_prefix, A.prefix), ("C07.R3", check_pipeline, A.dr_apply)):
         try:
             check(repo, res, A)
         except AnalysisError:
